@@ -351,5 +351,6 @@ Definition jerr (e : err) : json :=
     | EIOError => [73;79;69;114;114;111;114]
     | EUnicode => [85;110;105;99;111;100;101]
     | ENotImplemented => [78;111;116;73;109;112;108;101;109;101;110;116;101;100]
+    | EDiverge => [68;105;118;101;114;103;101]
     | EUnmodelled => [85;110;109;111;100;101;108;108;101;100]
     end)%N)].
